@@ -1,5 +1,6 @@
 // qsx_sut.cpp -- everything that touches the library under test
 #include "qsx.hpp"
+#include "qsx_io.hpp"
 #include <unistd.h>
 
 extern "C" {
@@ -67,11 +68,26 @@ struct ColMajor {
 // dumps as the very same model (otherwise the API-built object is used)
 bool g_built_via_file = false;
 static mpq_QSprob via_file(const Model &m, std::string *err) {
-  bool every_col_used = true, named = !m.name.empty();
+  bool every_col_used = true, named = !m.name.empty(), anyint = false;
   std::vector<bool> used(m.n(), false);
   for (auto &r : m.rows) { if (r.a.empty()) return nullptr; if (r.name.empty()) named = false; for (auto &kv : r.a) used[kv.first] = true; }
-  for (int j = 0; j < m.n(); j++) { if (m.cols[j].obj != 0) used[j] = true; if (!used[j]) every_col_used = false; if (m.cols[j].name.empty() || m.cols[j].isint) named = false; }
+  for (int j = 0; j < m.n(); j++) { if (m.cols[j].obj != 0) used[j] = true; if (!used[j]) every_col_used = false; if (m.cols[j].name.empty()) named = false; if (m.cols[j].isint) anyint = true; }
   if (!every_col_used || !named || m.n() == 0 || m.m() == 0) return nullptr;
+  if (anyint) {
+    // integer marks cannot be set through the API: the object is read from MPS text written by the harness's own
+    // emitter (plainest lexical choices: an empty tape), and kept only if it dumps as the very same model
+    Tape t0;
+    EmitStats st;
+    std::string path = scratch_dir() + "/route_int.mps";
+    if (!write_file(path, emit_mps(t0, m, st))) return nullptr;
+    mpq_QSprob p = mpq_QSread_prob(path.c_str(), "MPS");
+    unlink(path.c_str());
+    if (!p) return nullptr;
+    Model got;
+    std::string why;
+    if (!sut_dump(p, got, &why, false) || !model_equal(m, got, &why)) { mpq_QSfree_prob(p); return nullptr; }
+    return p;
+  }
   mpq_QSprob p0 = sut_build(m, R_BULK, err);
   if (!p0) return nullptr;
   std::string path = scratch_dir() + "/route.mps";
